@@ -48,6 +48,7 @@ def cmd_check(args):
     tier = os.environ.get('VERIF_TIER', 'quick')
     if '--tier' in args:
         tier = args[args.index('--tier') + 1]
+    os.environ['VERIF_TIER'] = tier
     seed = int(os.environ.get('VERIF_SEED', '0') or 0)
     reg = load_registry()
     if prop not in reg['properties']:
@@ -149,6 +150,10 @@ def cmd_check(args):
             w = None
             undecided.append('bounded check %s crashed: %r' % (bf['family'], e))
         bounded.append({'unit': None, 'family': bf['family'], 'found': bool(w), 'stands_in_for': bf['functions'], 'bound': bf['bound']})
+        # failures of the family that known_findings.json lists (matched by their own pattern, one obligation each)
+        for kid in replayers.known_hits.pop(bf['family'], []):
+            obligations.append({'id': kid, 'slot': None, 'props': [prop], 'status': 'failed', 'kind': 'bounded-replay',
+                                'message': 'known finding reproduced by the bounded check %s' % bf['family'], 'src': None, 'unit': 'bounded'})
         if w:
             obligations.append({'id': 'bounded::%s' % bf['family'], 'slot': None, 'props': [prop], 'status': 'failed', 'kind': 'bounded-replay',
                                 'message': 'bounded check (stand-in for %s, %s) found a failing input on the real code: %s' % (bf['functions'], bf['bound'], w.get('why')),
